@@ -30,7 +30,10 @@ package main
 //                      Uint32-decoded / a 4-byte buffer is put; schema key = its item is wrapped in a reader / a
 //                      bytes.Buffer's content is put
 //   row counters       the integer field of Index (several: the one stored while opening from a Uint32 decode) and of each
-//                      writer (several: the one AddRow increments)
+//                      writer (several: the one AddRow increments); a field of a struct the type holds BY VALUE (an embedded
+//                      `header{schema; nextRowID}`) counts as a field of the type — the same *types.Var may then be the
+//                      counter of all three types, and the rules tell the objects apart by the type the field is selected
+//                      from (rules_ag13.go: holderType / srcHolder / lastFieldHolder)
 //   LRU                item type = the struct type the cache methods type-assert list values to; maxSize = the integer field
 //                      the constructor stores its parameter in, curSize = the other integer field (stored by Put); item key =
 //                      the integer field used as key of delete(entries, …) / initialised from Put's key, item size = the one
@@ -209,25 +212,33 @@ func (sh *progShape) pickType(role, pkgPath, guess string, valid func(*types.Nam
 }
 
 // pickField: the field of T called guess if it has the right type; otherwise the only field of the right type; if
-// there are several, the only one among them that one of the narrowing predicates (tried in order) singles out.
+// there are several, the only one among them that one of the narrowing predicates (tried in order) singles out. Fields
+// of structs nested in T by value count as fields of T (today's name is looked for there too).
 func (sh *progShape) pickField(role string, T *types.Named, guess string, typeOK func(types.Type) bool, narrow ...func(*types.Var) bool) *types.Var {
 	if T == nil {
 		sh.note(role, "the struct type that holds it was not found")
 		return nil
 	}
-	st, ok := T.Underlying().(*types.Struct)
-	if !ok {
+	if _, ok := T.Underlying().(*types.Struct); !ok {
 		sh.note(role, T.Obj().Name()+" is not a struct")
 		return nil
 	}
 	if f := structFieldNamed(T, guess); f != nil && typeOK(f.Type()) {
 		return f
 	}
-	var cands []*types.Var
-	for i := 0; i < st.NumFields(); i++ {
-		if typeOK(st.Field(i).Type()) {
-			cands = append(cands, st.Field(i))
+	// the fields of T and of the structs T holds by value (an embedded `header{schema; nextRowID}`): the role may have been
+	// bundled with others into a nested struct, its storage is still part of the T object (rules_ag13.go)
+	var cands, named []*types.Var
+	for _, f := range heldFields(T) {
+		if typeOK(f.Type()) {
+			cands = append(cands, f)
+			if f.Name() == guess {
+				named = append(named, f)
+			}
 		}
+	}
+	if len(named) == 1 {
+		return named[0]
 	}
 	if len(cands) == 1 {
 		return cands[0]
@@ -622,7 +633,13 @@ func (sh *progShape) resolveRoot() {
 	}
 	heldBy := func(T *types.Named) func(*types.Named) bool {
 		return func(n *types.Named) bool {
-			return len(fieldsWhere(T, func(f *types.Var) bool { return namedOf(f.Type()) == n })) > 0
+			// (directly or in a struct T holds by value)
+			for _, f := range heldFields(T) {
+				if namedOf(f.Type()) == n {
+					return true
+				}
+			}
+			return false
 		}
 	}
 	var scands []*types.Named
